@@ -59,13 +59,17 @@ type Step struct {
 	// SameQuery: the request carries the fixed query string "s=same" instead of its token, so that consecutive requests have
 	// byte-identical raw queries; every handler edits the url.Values it got from QueryParams, which are its request's own.
 	SameQuery bool `json:"same_query,omitempty"`
+	// Nested: before it answers, the handler looks another request (its own token) up through the router and closes the
+	// context it got: 1 = a route with a hostname parameter, 2 = a static hostname with path parameters, 3 = a path-only
+	// route reached under a registered hostname. Whatever the nested lookup records belongs to the nested request.
+	Nested int `json:"nested,omitempty"`
 }
 
 type Case struct {
 	Steps []Step `json:"steps"`
 }
 
-var kinds = []string{"direct", "host", "catchall", "ignore-add", "ignore-remove", "redirect", "notfound", "nomethod", "options", "lookup", "lookup-tsr", "host-infix-tsr", "double-infix-tsr", "infix", "hijack", "infix-empty-seg", "double-infix-empty-seg", "nomethod-host", "infix-sib", "infix-sib", "infix-sib-miss", "infix-sib-miss"}
+var kinds = []string{"direct", "host", "catchall", "ignore-add", "ignore-remove", "redirect", "notfound", "nomethod", "options", "lookup", "lookup-tsr", "host-infix-tsr", "double-infix-tsr", "infix", "hijack", "infix-empty-seg", "double-infix-empty-seg", "nomethod-host", "infix-sib", "infix-sib", "infix-sib-miss", "infix-sib-miss", "host-static", "host-static", "host-fallback"}
 
 type expKey struct{}
 
@@ -81,6 +85,7 @@ type exp struct {
 	clone     string
 	viaLookup bool
 	sameQuery bool
+	nested    int
 	// loose: a request with an empty path segment in the region an infix catch-all scans. Which handler answers it is C01's
 	// business; here only the per-request data (request, query, headers, writer state) is judged, and what the request leaves
 	// behind in the pools.
@@ -240,6 +245,10 @@ func (h *harness) respond(where string) fox.HandlerFunc {
 		if e == nil {
 			return
 		}
+		if e.nested > 0 {
+			h.nestedLookup(e)
+			h.inspect(where+" (after a nested Lookup of another request)", c, true)
+		}
 		if e.clone == "before" {
 			h.takeClone(c, e, "before")
 		}
@@ -257,6 +266,31 @@ func (h *harness) respond(where string) fox.HandlerFunc {
 			c.Writer().Header().Set("X-Resp", "late-"+e.tok)
 		}
 		h.inspect(where+" (after writing)", c, false)
+	}
+}
+
+// nestedLookup looks up a request carrying another token, as a handler may, and closes the context straight away.
+func (h *harness) nestedLookup(e *exp) {
+	tok := "t0_" + strings.TrimPrefix(e.tok, "t")
+	host, path, want := tok+".example.com", "/h/"+tok, "{tok}.example.com/h/{tok2}"
+	switch e.nested {
+	case 2:
+		host, path, want = "static.example.com", "/s/"+tok+"/"+tok, "static.example.com/s/{tok}/{tok2}"
+	case 3:
+		host, path, want = "static.example.com", "/fb/"+tok, "/fb/{tok}"
+	}
+	req := httptest.NewRequest("PATCH", "http://"+host+path, nil)
+	rte, cc, _ := h.f.Lookup(fox.NewTestContextOnly(httptest.NewRecorder(), req).Writer(), req)
+	if rte == nil || rte.Pattern() != want {
+		h.fail("nested Lookup of PATCH %s%s inside the handler of token %s returned %v, want %q", host, path, e.tok, rte, want)
+	}
+	if cc != nil {
+		for p := range cc.Params() {
+			if p.Value != tok {
+				h.fail("nested Lookup of PATCH %s%s: Params() yields %s=%q, want %q", host, path, p.Key, p.Value, tok)
+			}
+		}
+		cc.Close()
 	}
 }
 
@@ -295,6 +329,9 @@ func newHarness() (*harness, error) {
 	rh := h.respond("route handler")
 	f.MustHandle("GET", "/p/{tok}/x/{tok2}", rh)
 	f.MustHandle("PATCH", "{tok}.example.com/h/{tok2}", rh)
+	// a static hostname with path parameters, and a path-only route that its Host falls back to
+	f.MustHandle("PATCH", "static.example.com/s/{tok}/{tok2}", rh)
+	f.MustHandle("PATCH", "/fb/{tok}", rh)
 	f.MustHandle("GET", "/c/*{tok}", rh)
 	f.MustHandle("GET", "/ts/{tok}/", rh, fox.WithIgnoreTrailingSlash(true))
 	f.MustHandle("GET", "/tr/{tok}/y/{tok2}", rh, fox.WithIgnoreTrailingSlash(true))
@@ -331,7 +368,7 @@ func newHarness() (*harness, error) {
 
 // request builds the request and expectation of one step.
 func buildStep(s Step, tok string, n int) (*http.Request, *exp) {
-	e := &exp{tok: tok, scope: fox.RouteHandler, status: 200 + n%40, size: n%5 + 1, clone: s.Clone}
+	e := &exp{tok: tok, scope: fox.RouteHandler, status: 200 + n%40, size: n%5 + 1, clone: s.Clone, nested: s.Nested}
 	method, host, path := "GET", "example.com", ""
 	switch s.Kind {
 	case "direct", "lookup":
@@ -339,6 +376,12 @@ func buildStep(s Step, tok string, n int) (*http.Request, *exp) {
 	case "host":
 		method = "PATCH"
 		host, path, e.pattern, e.params = tok+".example.com", "/h/"+tok, "{tok}.example.com/h/{tok2}", []string{"tok", "tok2"}
+	case "host-static":
+		method = "PATCH"
+		host, path, e.pattern, e.params = "static.example.com", "/s/"+tok+"/"+tok, "static.example.com/s/{tok}/{tok2}", []string{"tok", "tok2"}
+	case "host-fallback":
+		method = "PATCH"
+		host, path, e.pattern, e.params = "static.example.com", "/fb/"+tok, "/fb/{tok}", []string{"tok"}
 	case "catchall":
 		path, e.pattern, e.params = "/c/"+tok, "/c/*{tok}", []string{"tok"}
 	case "ignore-add", "lookup-tsr":
@@ -536,6 +579,9 @@ func genStep(t *rapid.T) Step {
 	if gen.Chance(t, 1, 3, "clone") {
 		s.Clone = gen.Pick(t, []string{"before", "after"}, "when")
 	}
+	if gen.Chance(t, 1, 4, "nested") {
+		s.Nested = gen.IntR(t, 1, 3, "nestedkind")
+	}
 	if gen.Chance(t, 1, 5, "newtree") {
 		s.NewTree = gen.IntR(t, 1, 5, "nparams")
 	} else if gen.Chance(t, 1, 8, "droptree") {
@@ -566,6 +612,9 @@ func TestSequences(t *testing.T) {
 			}
 			if c.Steps[i].CloneWith {
 				stats.Class("clone-with")
+			}
+			if c.Steps[i].Nested > 0 {
+				stats.Class("nested-lookup-in-handler")
 			}
 			if c.Steps[i].NewTree > 0 || c.Steps[i].DropTree {
 				stats.Class("tree-replaced-before-request")
